@@ -579,6 +579,96 @@ def _continue_edit(ts, bo, bc, match_close):
     return None
 
 
+def fix_hoisted_closure_specs(text, log=None):
+    """After a merge: a closure whose parameter PATTERN was hoisted (`|(i, b)| body` -> `|__p0| { let (i, b) = __p0; body }`) may have
+    received, from the annotated copy, a contract written for a closure with a plain parameter (`|b| -> (o: T) requires P(b) ..`):
+    the contract now stands before the `let` that binds `b`.  For a flat tuple pattern the components are projections of the
+    parameter, so the contract is rewritten to name them directly (`b` -> `__p0.1`); nothing else is touched."""
+    from rslex import match_close
+    ts = lex(text)
+    edits = []
+    k = 0
+    while k + 3 < len(ts):
+        if ts[k][1] == '|' and ts[k + 1][0] == 'ident' and ts[k + 1][1].startswith('__p') and ts[k + 2][1] == '|' and ts[k + 3][1] == '-' and ts[k + 4][1] == '>':
+            pname = ts[k + 1][1]
+            # find the body brace: first `{` followed by `let (` .. `) = pname ;`
+            j = k + 5
+            body = None
+            while j + 2 < len(ts):
+                if ts[j][1] == '{' and ts[j + 1][1] == 'let' and ts[j + 2][1] == '(':
+                    pe = match_close(ts, j + 2)
+                    if pe + 3 < len(ts) and ts[pe + 1][1] == '=' and ts[pe + 2][1] == pname and ts[pe + 3][1] == ';':
+                        body = (j, pe)
+                    break
+                if ts[j][1] in '([':
+                    j = match_close(ts, j)
+                j += 1
+            if body:
+                comps = _split_commas(ts[body[0] + 3:body[1]])
+                names = {}
+                flat = True
+                for idx, c in enumerate(comps):
+                    c = [t for t in c if t[1] not in ('&', 'mut', 'ref')]
+                    if len(c) == 1 and c[0][0] == 'ident':
+                        if c[0][1] != '_':
+                            names[c[0][1]] = '%s.%d' % (pname, idx)
+                    else:
+                        flat = False
+                if flat and names:
+                    spec = ts[k + 3:body[0]]
+                    toks = [t[1] for t in spec]
+                    for nm, proj in names.items():
+                        for i in _var_positions(toks, nm):
+                            edits.append((spec[i][2], spec[i][3], proj))
+                    if log is not None and edits:
+                        log.append({'kind': 'closure-spec-follows-hoisted-pattern', 'old': ', '.join(names), 'new': ', '.join(names.values()),
+                                    'why': 'the contract of the closure was written for a plain parameter; the current text destructures a tuple'})
+        k += 1
+    if not edits:
+        return text
+    out, pos = [], 0
+    for a, b, r in sorted(set(edits)):
+        out.append(text[pos:a]); out.append(r); pos = b
+    out.append(text[pos:])
+    return ''.join(out)
+
+
+def count_unannotated(text):
+    """(closures without a contract, loops without an invariant) in an item, templates of generated code skipped.  A closure counts as
+    annotated when its parameter list is followed by `-> (`; a loop when `invariant` occurs between its keyword and its body."""
+    from rslex import match_close, is_macro_open
+    ts = lex(text)
+    closures = loops = 0
+    k = 0
+    n = len(ts)
+    while k < n:
+        t = ts[k]
+        if t[0] == 'punct' and t[1] in '([{' and is_macro_open(ts, k) and k >= 2 and ts[k - 2][1] in ('quote', 'format', 'panic', 'todo', 'unimplemented', 'assert', 'matches'):
+            k = match_close(ts, k) + 1
+            continue
+        if t[1] == '|' and k > 0 and ts[k - 1][1] in ('(', ',', '=', 'move', 'return'):
+            # parameter list up to the closing `|`
+            j = k + 1
+            while j < n and ts[j][1] != '|':
+                j = match_close(ts, j) + 1 if ts[j][1] in '([' else j + 1
+            if j + 2 < n and not (ts[j + 1][1] == '-' and ts[j + 2][1] == '>'):
+                closures += 1
+            k = j + 1
+            continue
+        if t[0] == 'ident' and t[1] in ('for', 'while', 'loop') and not (k and ts[k - 1][1] in ('.', ':', '<', '\'')) and not (t[1] == 'for' and k + 1 < n and ts[k + 1][1] == '<'):
+            j = k + 1
+            has_inv = False
+            while j < n and ts[j][1] != '{':
+                if ts[j][1] == 'invariant':
+                    has_inv = True
+                    break
+                j = match_close(ts, j) + 1 if ts[j][1] in '([' else j + 1
+            if not has_inv:
+                loops += 1
+        k += 1
+    return closures, loops
+
+
 def inline_new_helpers(unit, block, text, log=None, depth=0):
     """A call of a function that is defined in the same source file but is in no unit (a helper that did not exist when the
     annotated copy was written: "extract function") is replaced by the helper's body, so that the caller can still be verified
@@ -1040,6 +1130,12 @@ def generate(unit_path, out_path, spec_root=None):
         else:
             info['changed'] = True
             body, conflicts = merge(chunks, real)
+            body = fix_hoisted_closure_specs(body, nlog)
+            try:
+                b0_, b1_ = count_unannotated(resolve(chunks)), count_unannotated(body)
+                info['unannotated'] = {'base': list(b0_), 'merged': list(b1_)}
+            except Exception:
+                pass
             for c in conflicts:
                 c['block'] = name
             report['conflicts'].extend(conflicts)
